@@ -27,6 +27,11 @@ impl cucumber::World for PW {
 pub type REv = parser::Result<Event<Cucumber<PW>>>;
 
 thread_local! {
+    /// `realize` ends `Log` messages with a newline
+    pub static LOG_NEWLINE: std::cell::Cell<bool> = const { std::cell::Cell::new(false) };
+}
+
+thread_local! {
     /// `realize` attaches a World to Failed step / hook events (what a reporter prints of it is display, not a fact)
     pub static WITH_WORLD: std::cell::Cell<bool> = const { std::cell::Cell::new(false) };
 }
@@ -329,7 +334,8 @@ impl Cat {
                 let sev: event::Scenario<PW> = match se {
                     ASc::Started => event::Scenario::Started,
                     ASc::Finished => event::Scenario::Finished,
-                    ASc::Log(m) => event::Scenario::Log(format!("log {m}")),
+                    // (a terminal counts screen lines: there, like real tracing output, a log ends with a newline)
+                    ASc::Log(m) => event::Scenario::Log(if LOG_NEWLINE.with(std::cell::Cell::get) { format!("log {m}\n") } else { format!("log {m}") }),
                     ASc::Hook(b, r) => {
                         let ty = if *b { event::HookType::Before } else { event::HookType::After };
                         event::Scenario::Hook(
